@@ -216,7 +216,7 @@ theorem flushStep_inv_cover {s : Shard} (h : Inv s) :
       | 1 =>
         -- index saved
         simp only
-        have hseg : ∀ id, segRows { s with index := s.index ++ [(j.seg, typesOf j.evs)], jobs := { j with step := 2 } :: rest } id = segRows s id :=
+        have hseg : ∀ id, segRows { s with index := (loadIndex s).index.filter (fun ent => ent.1 != j.seg) ++ [(j.seg, typesOf j.evs)], indexExists := true, jobs := { j with step := 2 } :: rest } id = segRows s id :=
           fun id => by simp [segRows]
         refine ⟨?_, ?_⟩
         · constructor
